@@ -1,5 +1,119 @@
-/- placeholder replaced below -/
-import UH.Model.Machine
+/-
+C04 — every failure is a language-level exception.
+
+In the model an evaluation can only end in: a value, a language exception
+(`ErrV`: code list + source locations), the explicit stack-limit report, or —
+for inputs the parser cannot produce / behaviour outside the model — the
+`bottom` / `unmodelled` markers.  There is no constructor for a host crash: every
+built-in is a total function into `Comp`.  The theorems below state what makes a
+language exception *interceptable*: whatever its contents, an exception raised
+inside the first argument of ㅅㄷ / the action bound by ㄱㄹ is delivered to the
+handler; every built-in failure carries the marker 5, a class code from
+`error.py` (table regenerated from the source, `Tables.errorCodes_match`) and a
+location; syntax errors are language exceptions.
+That the *implementation* has no escaping host exception is established by the
+call-shape matrix of the correspondence (harness/uh/props/c04.py).
+-/
+import UH.Model.Main
+import UH.Properties.Tables
 namespace UH.C04
-theorem placeholder : True := trivial
+open UH Comp
+
+/-- every built-in failure: contents begin `[5, class code]`, exactly one source location -/
+theorem builtinErr_shape (c : ErrClass) (sp : Span) (extra : List Int) :
+    (builtinErr c sp extra).metas = [sp] ∧
+    (builtinErr c sp extra).vals = Val.int 5 :: Val.int c.code :: extra.map Val.int := by
+  constructor
+  · rfl
+  · simp [builtinErr]; decide
+
+/-- the ten class codes are pairwise distinct (an exception identifies its class) -/
+theorem class_codes_distinct (a b : ErrClass) (h : a.code = b.code) : a = b := by
+  cases a <;> cases b <;> first | rfl | (exfalso; revert h; decide)
+
+/-- the argument checks of `utils.py` fail with the type / value class -/
+theorem checkType_fails (sp : Span) (vs : List Val) (p : Val → Bool) (h : vs.all p = false) :
+    checkType sp vs p = throw (builtinErr .type sp) := by
+  simp [checkType, h, typeErr]
+
+theorem checkArity_fails (sp : Span) (n : Nat) (as : List Nat) (h : n ∉ as) :
+    checkArity sp n as = throw (builtinErr .value sp) := by
+  simp [checkArity, h, valueErr]
+
+/-- an unknown built-in name is a NotFound exception at the call -/
+theorem unknown_builtin (sp : Span) (n : Int) (h : isBuiltinName n = false) :
+    checkCallee isBuiltinName sp (.builtin n) true = throw (builtinErr .notFound sp) := by
+  simp [checkCallee, h]
+
+/-- calling something that is not callable is a type exception at the call -/
+theorem not_callable (sp : Span) (v : Val) (h : v.isCallable = false) (hb : ∀ n, v ≠ .builtin n) :
+    checkCallee isBuiltinName sp v true = throw (builtinErr .type sp) := by
+  cases v <;> simp_all [checkCallee, typeErr]
+
+/-- **ㅅㄷ intercepts every exception of its first argument**, whatever its contents: the
+sub-evaluation's exception continuation *is* the handler call -/
+theorem try_catches (sp : Span) (body handler : Arg) :
+    bTry isBuiltinName sp [body, handler] =
+      call (.recStrict body)
+        (fun r => match r with | .arg a => ret a | _ => bottom)
+        (fun err => do
+          let f ← strictFunctional sp handler
+          checkCallee isBuiltinName sp f false
+          callArg (.apply f sp [.strict (.err err.metas err.vals)])) := by
+  simp only [bTry, checkArity, callArg, Bind.bind, Comp.bind, List.length_cons, List.length_nil,
+    List.contains_cons, List.contains_nil, beq_self_eq_true, Bool.or_false, if_true, Comp.tryCatch]
+  congr 1
+  funext r
+  cases r <;> rfl
+
+/-- the handler receives the exception value intact -/
+theorem try_handler_gets_exception (sp : Span) (body handler : Arg) (e : ErrV) (f : Val)
+    (hf : strictFunctional sp handler = ret f) (hc : checkCallee isBuiltinName sp f false = ret ()) :
+    (match bTry isBuiltinName sp [body, handler] with
+     | .call _ _ ke => ke e
+     | c => c) = callArg (.apply f sp [.strict (.err e.metas e.vals)]) := by
+  rw [try_catches]
+  simp [hf, hc, Bind.bind, Comp.bind]
+
+/-- **ㄱㄹ with a handler intercepts every exception raised while executing its first action** -/
+theorem bind_handler_catches (argv : List Arg) (sp : Span) (io0 resolve rej : Val) (e : ErrV) :
+    (match ioCont .bind argv sp (some (io0, resolve, some rej)) with
+     | .call (.doIO v) _ ke => some (v, ke e)
+     | _ => none) =
+    some (io0, do
+      checkCallee isBuiltinName sp rej false
+      let r ← callArg (.apply rej sp [.strict (.err e.metas e.vals)])
+      let rv ← forceArg r
+      checkType sp [rv] Val.isIO
+      retV rv) := by
+  simp [ioCont]
+
+/-- without a handler the exception propagates unchanged -/
+theorem bind_no_handler_propagates (argv : List Arg) (sp : Span) (io0 resolve : Val) (e : ErrV) :
+    (match ioCont .bind argv sp (some (io0, resolve, none)) with
+     | .call (.doIO v) _ ke => some (v, ke e)
+     | _ => none) = some (io0, throw e) := by
+  simp [ioCont]
+
+/-- in the evaluator an exception raised by a sub-coroutine goes to the innermost pending
+exception continuation — there is no class of exception that bypasses it -/
+theorem step_delivers_exception (m : MState) (f : Frame) (rest : List Frame) (e : ErrV)
+    (kt : Kont) (ks : List Kont)
+    (hs : m.status = .running) (ht : m.tail = f :: rest) (hr : m.resp = none)
+    (hc : f.cur = .throw e) (hk : f.konts = kt :: ks) :
+    (step m).tail = { f with konts := ks, cur := kt.ke e } :: rest := by
+  unfold step
+  simp [hs, ht, hr, hc, hk]
+
+/-- a text that does not parse ends in a language exception of the syntax class, located at the
+offending word -/
+theorem syntax_error_is_language_exception (fuel : Nat) (w : World) (text : List Nat) (fio : Bool)
+    (pe : PErr) (h : parse normChar text = .error pe) :
+    ∃ s, (runMain fuel w text fio).outcome = .err (builtinErr .syntax pe.span) s := by
+  simp [runMain, h]
+
+-- the error class codes are those of error.py (regenerated table)
+example : ErrClass.type.code = 0 ∧ ErrClass.value.code = -39 ∧ ErrClass.outOfRange.code = -5 ∧
+    ErrClass.division.code = -9 ∧ ErrClass.syntax.code = -44 := by decide
+
 end UH.C04
